@@ -143,9 +143,17 @@ def rline(line):
                 if sj['op'] == 'ELSE':
                     sj['col'] = True
                     out += ' ELSE '
-                    if st['en']:
-                        out += '%d' % st['en']
-                    nocolon = not st['en']
+                    en = sj['n'] if 'n' in sj else st['en']       # ELSE <line>: on the ELSE itself (nested IFs) or on the only IF
+                    if en:
+                        out += '%d' % en
+                    nocolon = not en
+                    j += 1
+                    continue
+                if sj['op'] == 'IF':
+                    # an IF nested in the THEN / ELSE part of the line
+                    sj['col'] = not nocolon
+                    out += ('' if nocolon else ':') + 'IF %s THEN ' % rexpr(sj['e']) + ('%d' % sj['tn'] if sj['tn'] else '')
+                    nocolon = not sj['tn']
                     j += 1
                     continue
                 sj['col'] = not nocolon
@@ -353,6 +361,16 @@ class Gen(object):
     def if_stmt(self, depth, targets):
         r = self.r.random()
         c = self.cond()
+        if self.r.random() < 0.18:
+            # IFs nested on one line, with one ELSE per IF or a dangling one (it belongs to the inner IF)
+            inner = [{'op': 'IF', 'e': self.cond(), 'tn': 0, 'en': 0, 'ei': 0}, self.simple(), {'op': 'ELSE', 'n': 0}, self.simple()]
+            line = [{'op': 'IF', 'e': c, 'tn': 0, 'en': 0, 'ei': 0}] + inner
+            if self.r.random() < 0.6:
+                line += [{'op': 'ELSE', 'n': self.r.choice([0, 0, ('after', 1)])}]
+                if not line[-1]['n']:
+                    line.append(self.simple())
+            self.line(line)
+            return
         if r < 0.3:
             self.line([{'op': 'IF', 'e': c, 'tn': ('after', 0), 'en': 0, 'ei': 0}])
         elif r < 0.45:
